@@ -239,6 +239,7 @@ func (s *Scanner) newWorkerConfig(d *desc) (*workerConfig, error) {
 	if err != nil {
 		return nil, err
 	}
+	verifhook.At("scanner.newWorkerConfig.afterOpen")
 	// the parser has opened d.File by name: it must still be the file the descriptor stands for. The name may have
 	// been replaced since scanPaths looked at it; the next sync then finds the new file under its own id
 	if fi, err := os.Stat(d.File); err != nil || utils.GetFileId(d.File, fi) != d.Id {
